@@ -50,7 +50,26 @@ type SVGImage struct {
 
 	// needed to draw text
 	cursorPosition, cursorDPosition point
+
+	// definitions (clip paths, masks, markers) currently being drawn,
+	// to ignore cyclic references
+	inUse map[interface{}]bool
 }
+
+// enter marks the definition [key] as being drawn; it returns false
+// when it already is, that is for a cyclic reference, which is ignored
+func (svg *SVGImage) enter(key interface{}) bool {
+	if svg.inUse[key] {
+		return false
+	}
+	if svg.inUse == nil {
+		svg.inUse = make(map[interface{}]bool)
+	}
+	svg.inUse[key] = true
+	return true
+}
+
+func (svg *SVGImage) leave(key interface{}) { delete(svg.inUse, key) }
 
 // DisplayedSize returns the value of the "width" and "height" attributes
 // of the <svg> root element, which discribe the displayed size of the rectangular viewport.
@@ -192,8 +211,9 @@ func (svg *SVGImage) drawNode(dst backend.Canvas, node *svgNode, dims drawingDim
 		}
 
 		// apply mask
-		if ma, has := svg.definitions.masks[node.maskID]; has {
+		if ma, has := svg.definitions.masks[node.maskID]; has && svg.enter("mask "+node.maskID) {
 			svg.applyMask(dst, ma, node, dims)
+			svg.leave("mask " + node.maskID)
 		}
 
 		// do the actual painting :
@@ -252,7 +272,7 @@ func (svg *SVGImage) drawMarkers(dst backend.Canvas, vertices []vertex, node *sv
 		}
 
 		marker := markers[position]
-		if marker == nil {
+		if marker == nil || !svg.enter(marker) {
 			continue
 		}
 
@@ -322,7 +342,7 @@ func (svg *SVGImage) drawMarkers(dst backend.Canvas, vertices []vertex, node *sv
 				svg.drawNode(dst, child, dims, paint)
 			})
 		}
-
+		svg.leave(marker)
 	}
 }
 
@@ -418,6 +438,11 @@ func applyFilters(dst backend.Canvas, filters []filter, node *svgNode, dims draw
 }
 
 func (svg *SVGImage) applyClipPath(dst backend.Canvas, clipPath *clipPath, node *svgNode, dims drawingDims) {
+	if !svg.enter(clipPath) {
+		return
+	}
+	defer svg.leave(clipPath)
+
 	oldCtm := dst.State().GetTransform()
 
 	if clipPath.isUnitsBBox {
